@@ -1,8 +1,9 @@
 import Csproto.Model.Basic
 /-
   `prototest.ParseAnnotatedHex`: per line — cut at the first ';', drop `unicode.IsSpace` runes,
-  skip if empty, `hex.DecodeString`.  Text is a list of Unicode code points (the harness feeds valid
-  UTF-8 only).  Core-only.
+  skip if empty, `hex.DecodeString`.  Text is a list of Unicode code points; `goRunes` turns the bytes
+  of a Go string into that list the way Go reads a string rune by rune (a byte that does not start a
+  well-formed UTF-8 sequence is one U+FFFD).  Core-only.
 -/
 namespace Csproto
 
@@ -56,5 +57,53 @@ def parseLines : List (List Char) → Option Bytes
 
 /-- `ParseAnnotatedHex` -/
 def parseAnnotatedHex (x : List Char) : Option Bytes := parseLines (splitLines x)
+
+/-! ### a Go string as characters -/
+
+def runeError : Char := Char.ofNat 0xFFFD
+
+def inRange (b : UInt8) (lo hi : Nat) : Bool := lo ≤ b.toNat && b.toNat ≤ hi
+
+/-- Go's `utf8.DecodeRune` applied repeatedly (what `for range s`, `strings.Map`, `[]rune(s)` see):
+    shortest-form sequences only, no surrogates, nothing above U+10FFFF; any other byte is consumed
+    alone and read as U+FFFD. -/
+def goRunesAux : Nat → Bytes → List Char
+  | 0, _ => []
+  | _, [] => []
+  | f+1, b0 :: rest =>
+    let n0 := b0.toNat
+    let bad := fun (_ : Unit) => runeError :: goRunesAux f rest
+    if n0 < 0x80 then Char.ofNat n0 :: goRunesAux f rest
+    else if 0xC2 ≤ n0 ∧ n0 ≤ 0xDF then
+      match rest with
+      | b1 :: r1 =>
+        if inRange b1 0x80 0xBF then
+          Char.ofNat (((n0 &&& 0x1F) <<< 6) ||| (b1.toNat &&& 0x3F)) :: goRunesAux f r1
+        else bad ()
+      | _ => bad ()
+    else if 0xE0 ≤ n0 ∧ n0 ≤ 0xEF then
+      let lo := if n0 = 0xE0 then 0xA0 else 0x80
+      let hi := if n0 = 0xED then 0x9F else 0xBF
+      match rest with
+      | b1 :: b2 :: r2 =>
+        if inRange b1 lo hi && inRange b2 0x80 0xBF then
+          Char.ofNat (((n0 &&& 0x0F) <<< 12) ||| ((b1.toNat &&& 0x3F) <<< 6) ||| (b2.toNat &&& 0x3F)) :: goRunesAux f r2
+        else bad ()
+      | _ => bad ()
+    else if 0xF0 ≤ n0 ∧ n0 ≤ 0xF4 then
+      let lo := if n0 = 0xF0 then 0x90 else 0x80
+      let hi := if n0 = 0xF4 then 0x8F else 0xBF
+      match rest with
+      | b1 :: b2 :: b3 :: r3 =>
+        if inRange b1 lo hi && inRange b2 0x80 0xBF && inRange b3 0x80 0xBF then
+          Char.ofNat (((n0 &&& 0x07) <<< 18) ||| ((b1.toNat &&& 0x3F) <<< 12) ||| ((b2.toNat &&& 0x3F) <<< 6) ||| (b3.toNat &&& 0x3F)) :: goRunesAux f r3
+        else bad ()
+      | _ => bad ()
+    else bad ()
+
+def goRunes (b : Bytes) : List Char := goRunesAux b.length b
+
+/-- `ParseAnnotatedHex` on the bytes of a Go string (well-formed UTF-8 or not) -/
+def parseAnnotatedHexBytes (x : Bytes) : Option Bytes := parseAnnotatedHex (goRunes x)
 
 end Csproto
